@@ -1158,6 +1158,10 @@ def rule_r8(chk, prog):
                                 isinstance(x.left, ast.Constant)
                                 and isinstance(x.left.value, (int, float))):
                         continue  # string formatting
+                    if isinstance(x.right, (ast.JoinedStr, )) or (
+                            isinstance(x.right, ast.Constant) and isinstance(
+                                x.right.value, str)):
+                        continue  # path / 'name': not arithmetic
                     div = x.right
                 elif isinstance(x, ast.AugAssign) and isinstance(
                         x.op, (ast.Div, ast.FloorDiv, ast.Mod)):
